@@ -471,6 +471,11 @@ func c16TurnOracle(c *Case, e *streamEnv, l, route, schema string, keys, values,
 		if len(toks) != 0 {
 			c.Oracle("cancel-returned-cursor", fmt.Sprintf("%q: cancel response carries a token", l))
 		}
+		// the answer is a well-formed EMPTY IPC stream (schema + end-of-stream), whatever the hook did:
+		// a zero-length or cut-off body is not something a client can read as "cancelled"
+		if n := countIPCStreams(res.body); n != 1 || !res.parseOK || !ipcEndsWithEOS(res.body) {
+			c.Oracle("cancel-response-not-empty-ipc-stream", fmt.Sprintf("%q (hook %s): cancel answered 200 with a %d-byte body holding %d complete IPC stream(s), want exactly one empty stream", l, cur.cancel, len(res.body), n))
+		}
 		return
 	}
 	if cancelled {
